@@ -62,9 +62,9 @@ def plan(tier, seed):
     for fam in fams:
         for impl in ('c', 'py'):
             specs.append(dict(label='%s-%s' % (fam, impl), family=fam,
-                              impl=impl, trees=30 if q else 200, seed=seed,
+                              impl=impl, trees=30 if q else 1200, seed=seed,
                               tier=tier, variant='mon',
-                              timeout=900 if q else 3000))
+                              timeout=900 if q else 7200))
     return specs
 
 
